@@ -275,7 +275,7 @@ _AUDIT_RULE = ("mixed histories (constructions, apply operations across forests,
                "and distinct canonical diagrams")
 
 PROPS["C02"] = dict(
-    gens=[("hist", gen.gen_hist, 1.0), ("node-churn", gen.gen_C02_nodes_mm, 0.3), ("node-tail", gen.gen_C02_tail, 0.4)], quick=40, thorough=500, rule=_AUDIT_RULE, uses_gen=True,
+    gens=[("hist", gen.gen_hist, 1.0), ("node-churn", gen.gen_C02_nodes_mm, 0.3), ("node-tail", gen.gen_C02_tail, 0.4), ("level-arithmetic", gen.gen_levels, 0.1)], quick=40, thorough=500, rule=_AUDIT_RULE, uses_gen=True,
     level_text="Proved: mk/apply/build/of_fun only ever return diagrams that satisfy the reduction-rule clauses "
                "(reducedb) for all inputs; the store-level clauses are the executable Gallina audit (20 clauses) "
                "run on the implementation's own node dump at every quiescent point of generated histories; the "
